@@ -19,6 +19,13 @@ func (x *Exec) ndKey(name string) string {
 }
 
 func (x *Exec) ndVar(name string, w int) *Term {
+	if x.frozen {
+		// nd.Freeze(true): inputs are the fixed value 1 / true (used to build concrete base instances)
+		if w == 0 {
+			return x.ctx.True
+		}
+		return x.ctx.BV(1, w)
+	}
 	key := x.ndKey(name)
 	kind := "bv"
 	if w == 0 {
@@ -351,6 +358,13 @@ func registerNd(e *Engine) {
 	I[p+"BigBits"] = func(x *Exec, caller *frame, fn *ssa.Function, args []Value) Value {
 		x.h.BigBits = x.concreteInt(args[0], "BigBits")
 		return nil
+	}
+	I[p+"Freeze"] = func(x *Exec, caller *frame, fn *ssa.Function, args []Value) Value {
+		x.frozen = args[0].(*Term).IsTrue()
+		return nil
+	}
+	I[p+"Frozen"] = func(x *Exec, caller *frame, fn *ssa.Function, args []Value) Value {
+		return x.ctx.Bool(x.frozen)
 	}
 	I[p+"AllocBound"] = func(x *Exec, caller *frame, fn *ssa.Function, args []Value) Value {
 		x.h.AllocBound = x.concreteInt(args[0], "AllocBound")
